@@ -9,10 +9,19 @@ func init() {
 	}
 }
 
+// maxUserLen is the number of bytes of the user name which are kept. The user
+// name is part of the prefix of every message relayed for a session: with an
+// unbounded user name, the prefix alone can exceed the maximum length of an
+// IRC message, so that messages are cut off before their command.
+const maxUserLen = 32
+
 func (i *IRCServer) cmdUser(s *Session, reply *Replyctx, msg *irc.Message) {
 	// We keep the username (so that bans are more effective) and realname
 	// (some people actually set it and look at it).
 	s.Username = msg.Params[0]
+	if len(s.Username) > maxUserLen {
+		s.Username = s.Username[:maxUserLen]
+	}
 	s.Realname = msg.Trailing()
 	s.updateIrcPrefix()
 	i.maybeLogin(s, reply, msg)
